@@ -29,9 +29,11 @@ def decOutcomes (tok : String) : Option (List (Str × Outcome)) :=
     | [n, o] => do let n ← decStr n; let o ← decOutcome o; pure (n, o)
     | _ => none
 
-/-- a stateless scripted server: the outcome listed for the requested type; unlisted = the connection is closed before the reply -/
-def mapSrv (m : List (Str × Outcome)) : Unit → Str → Outcome × Unit := fun _ n =>
-  (match m.find? (·.1 = n) with | some (_, o) => o | none => .noReply, ())
+/-- a scripted server: the outcome listed for the requested type (unlisted = the connection is closed before the reply);
+    connections with index ≥ `refuseAfter` are refused (the state is the number of connections so far) -/
+def mapSrv (m : List (Str × Outcome)) (refuseAfter : Option Nat) : Nat → Str → Outcome × Nat := fun i n =>
+  (if (match refuseAfter with | some k => decide (k ≤ i) | none => false) then .connFail
+   else match m.find? (·.1 = n) with | some (_, o) => o | none => .noReply, i + 1)
 
 def jhkrec (e : Str × HKRec) : J := .arr [.str e.1, J.ofBytes e.2.raw, .nat e.2.info.size, .str e.2.info.caType, .nat e.2.info.caSize]
 def jfp (e : Str × Bytes) : J := .arr [.str e.1, J.ofBytes e.2]
@@ -78,9 +80,10 @@ def hostKeyOp (op : String) (args : List String) : Option J :=
   | "hk.extend", [d, f, w] => do
     let d ← decDesc d; let f ← decStrs f; let w ← decStrs w
     pure (jok (jdesc (extendDesc f w d)))
-  | "hk.audit", [k, key, o] => do
+  | "hk.audit", [k, key, o, ra] => do
     let kex ← decStrs k; let keys ← decStrs key; let m ← decOutcomes o
-    let st := run hkCfg (mapSrv m) () Gen.ssh2db kex keys
+    let ra ← if ra = "~" then some none else (decNat ra).map some
+    let st := run hkCfg (mapSrv m ra) 0 Gen.ssh2db kex keys
     pure (jok (.obj ([("probes", J.ofStrs st.probes), ("halt", jhalt st.halt), ("parsed", J.ofStrs st.parsed),
       ("descs", .arr (Gen.hostKeyTypes.map fun t => .arr [.str t.name, J.ofOpt (fun (e : Entry) => jdesc e.desc) (DBm.lookup st.db Report.keyC t.name)]))]
       ++ jview keys st.db st.hostKeys)))
@@ -92,13 +95,13 @@ def hostKeyOp (op : String) (args : List String) : Option J :=
     pure (jok (.arr [.str (sha256Text a), .str (md5Text b)]))
   | "hk.adjust", [n] => do let n ← decNat n; pure (jok (.arr [.nat (adjustKeySize n)]))
   | "hk.shownbits", [k] => do let k ← decNat k; pure (jok (.nat (Spec.shownBits k)))
-  | "hk.enc.rsa", [e, n] => do let e ← decNat e; let n ← decNat n; pure (jok (J.ofBytes (Spec.rsaBlob e n)))
+  | "hk.enc.rsa", [e, n] => do let e ← hexNat e; let n ← hexNat n; pure (jok (J.ofBytes (Spec.rsaBlob e n)))
   | "hk.enc.ed25519", [pk] => do let pk ← decBytes pk; pure (jok (J.ofBytes (Spec.ed25519Blob pk)))
   | "hk.enc.ed448", [pk] => do let pk ← decBytes pk; pure (jok (J.ofBytes (Spec.ed448Blob pk)))
   | "hk.enc.ecdsa", [c, x, y] => do let c ← decStr c; let x ← decBytes x; let y ← decBytes y; pure (jok (J.ofBytes (Spec.ecdsaBlob c x y)))
   | "hk.enc.reply", [b, f, sg] => do let b ← decBytes b; let f ← decBytes f; let sg ← decBytes sg; pure (jok (J.ofBytes (Spec.kexReply b f sg)))
   | "hk.enc.cert", [kind, pub, ct, nonce, nums, keyId, princ, crit, ext, resv, sg, ca] => do
-    -- kind: `r` (pub = `e,n` decimal) or `e` (pub = public key hex); nums = `serial,validAfter,validBefore`
+    -- kind: `r` (pub = `e,n` in hex) or `e` (pub = public key hex); nums = `serial,validAfter,validBefore`
     let ct ← decNat ct; let nonce ← decBytes nonce; let nums ← decNats nums
     let keyId ← decBytes keyId; let princ ← decBytes princ; let crit ← decBytes crit; let ext ← decBytes ext
     let resv ← decBytes resv; let sg ← decBytes sg; let ca ← decBytes ca
@@ -107,7 +110,7 @@ def hostKeyOp (op : String) (args : List String) : Option J :=
       let f : Spec.CertFields := { nonce := nonce, serial := serial, keyId := keyId, principals := princ, validAfter := va, validBefore := vb,
                                    crit := crit, ext := ext, reserved := resv, sig := sg }
       if kind = "r" then do
-        let en ← decNats pub
+        let en ← (pub.splitOn ",").mapM hexNat
         match en with
         | [e, n] => pure (jok (J.ofBytes (Spec.rsaCert e n ct f ca)))
         | _ => none
